@@ -117,7 +117,9 @@ class TSched:
         SCHED = self
         try:
             for t in self.threads:
-                t.thread = threading.Thread(target=self._run_thread, args=(t,), daemon=True)
+                # all scenario threads deliberately carry the SAME name (legal: names need not be unique; two pools with the
+                # same thread_name_prefix produce it) so that nothing may identify a thread by its name
+                t.thread = threading.Thread(target=self._run_thread, args=(t,), daemon=True, name="worker_0")
                 t.thread.start()
             while any(not t.done for t in self.threads):
                 en = self.enabled()
